@@ -91,11 +91,9 @@ Section Assoc.
     | (k', v) :: r => if eqb k k' then Some v else alookup k r
     end.
 
-  Fixpoint aremove (k : K) (t : list (K * V)) : list (K * V) :=
-    match t with
-    | [] => []
-    | (k', v) :: r => if eqb k k' then r else (k', v) :: aremove k r
-    end.
+  (* d.pop(k): dict keys are unique, so "every entry with key k" is "the entry with key k" *)
+  Definition aremove (k : K) (t : list (K * V)) : list (K * V) :=
+    filter (fun e => negb (eqb k (fst e))) t.
 
   (* d[k] = v : in place when the key exists, else appended (dict insertion order) *)
   Fixpoint aset (k : K) (v : V) (t : list (K * V)) : list (K * V) :=
